@@ -95,11 +95,15 @@ is_ipv6 (const char *start, const char *end)
                 /* bad null last field in IPv6 address */
                 return (NO);
             }
+            else if (null_field == 0 && field != 7) {
+                /* 8 groups are required unless there is a `::' */
+                return (NO);
+            }
             else
                 return (YES);
         case '.':
             /* Terminate the loop. */
-            if (field < 2 || field > 6) {
+            if (field < 2 || field > 6 || (null_field == 0 && field != 6)) {
                 /* malformed IPv4-in-IPv6 address */
                 return (NO);
             }
@@ -142,6 +146,14 @@ is_ipv6 (const char *start, const char *end)
         } break;
         } /* switch */
     } /* for (;;) */
+
+    /* the address ended at `end', not at a NUL: same checks as in `case 0' */
+    if (field < 2)
+        return (NO);
+    if (len == 0 && null_field != field - 1)
+        return (NO);
+    if (null_field == 0 && field != 7)
+        return (NO);
 
     return (YES);
 }
